@@ -7,7 +7,8 @@ implementation is run; when the template fails on one line (unknown variable, ma
 that line is recorded with its error and dropped, and the run repeated, so that every variable is observed as
 "value" or "error class".  Every single run is also put to the extracted model (exit, stdout, the complete
 sequence of diagnostics with file/line/class/payload must agree), and the extracted specification oracle is
-applied to the final observation."""
+applied to the final observation.  Where the model flags a C-level trap (Conf/ConfAbort.v: possible only when
+config_default_build_dir lacks its re-entry guard, finding D18) agreement means that the implementation dies."""
 import hashlib, json, glob, os, re
 from concurrent.futures import ThreadPoolExecutor
 import common
@@ -32,7 +33,9 @@ def gen_case(rng, g):
     mode = rng.choice(cc.MODES)
     ents, st = g.entries(mode, popt=rng.choice([0.1, 0.35, 0.35, 0.7]))
     label = 'valid'
-    if rng.random() < 0.45:
+    if rng.random() < 0.04:
+        label, text = g.reentry(mode, ents, st)
+    elif rng.random() < 0.45:
         label, text = g.corrupt(mode, ents, st)
     else:
         text = g.render(ents, plain=rng.random() < 0.15)
@@ -106,7 +109,16 @@ def evaluate(ctx, cases, res, world=None, drv=None):
         for a in atts:
             a['spec'] = sanswers[qi]
             impl_s = ' '.join([str(a['rc'] if a['rc'] >= 0 else 999), hexs(a['out']), '0', str(len(a['diags']))] + a['diags'])
-            if answers[qi] != impl_s:
+            mf = answers[qi].split()
+            a['model_trap'] = len(mf) > 2 and mf[2] == '1'
+            if a['model_trap']:
+                # the model flags a C-level trap (Conf/ConfAbort.v: only ${builddir} re-entered, D18): what it says
+                # about exit and diagnostics is void, the implementation must die abnormally
+                agree = a['rc'] < 0 or a['rc'] > 128
+                res.count('model predicts trap -> impl %s' % ('dies' if agree else 'exit %d' % a['rc']))
+            else:
+                agree = answers[qi] == impl_s
+            if not agree:
                 if len(res.disagreements) < 50:
                     res.disagreements.append({'case': dict(case, stdin=a['stdin'].replace(world.R, cc.PH).hex()), 'model': answers[qi], 'impl': impl_s,
                                               'stderr': a['err'][-400:].decode('latin1')})
@@ -132,6 +144,12 @@ def oracle(world, case, conf, atts, dropped, accepted, res):
         res.oracle_failures.append(dict({'case': case, 'signature': sig, 'what': what, 'stderr': first['err'][-300:].decode('latin1')}, **kw))
     for a in atts:
         if a['rc'] not in (0, 1):
+            if a.get('model_trap') and a['rc'] in (-11, 139):
+                # D18 (repaired in /repo 35cfab1) = death by stack exhaustion (SIGSEGV) where the model flags the trap; any other
+                # signal (SIGILL of __builtin_trap, SIGABRT of an assert) is a different trap site
+                fail('config-builddir-reentry', 'robsd-config terminated with status %d: ${builddir} needed while ${builddir} is being computed '
+                     '(config_default_build_dir re-entered without bound)' % a['rc'])
+                return
             fail('abnormal-termination', 'robsd-config terminated with status %d' % a['rc'])
             return
         if a['rc'] != 0 and a['out']:
